@@ -1,5 +1,6 @@
 import OdcGeo.Model.C05Opts
 import OdcGeo.Model.C05Meta
+import OdcGeo.Model.C05Stats
 /-!
 Driver operations for `Model/C05Opts.lean`.  Tokens: keyword dicts `{k=v,k=v}` (values are opaque tokens without `,` `=` `{` `}`),
 predictor `U` (Unset) | `N` | `T` | `F` | `i:<n>`, optional strings `N` | `s:<text>`.
@@ -76,6 +77,13 @@ def run (args : List String) : Option String :=
     let (a, b) := tileCompressorParts c p
     pure s!"{fmtBool a} {fmtBool b}"
   | ["gdalcomp", c] => pure ((gdalComp c).getD "N")
+  | ["lstats", ax, data, nd] => do
+    -- data: three nesting levels in the layer's own axis order, separated by `|` `;` `,`
+    let ax ← parseAxis? ax; let nd ← parseOpt? parseInt? nd
+    let data ← (data.splitOn "|").mapM fun a => (a.splitOn ";").mapM fun b => (b.splitOn ",").mapM parseInt?
+    pure ("+".intercalate ((statsFromLayer ax data nd).map fun st =>
+      s!"{fmtOpt fmtInt st.minimum} {fmtOpt fmtInt st.maximum} " ++ (match st.mean with | none => "N" | some m => fmtFixed m 6 0) ++
+        s!" {st.valid} {st.npix}"))
   | ["fixed", v, p, pad] => do
     let v ← parseRat? v; let p ← parseNat? p; let pad ← parseNat? pad
     pure ("|" ++ fmtFixed v p pad ++ "|")
